@@ -643,8 +643,9 @@ impl Machine {
             "car" | "cdr" | "null?" | "pair?" | "list?" | "not" | "abs" | "floor" | "ceiling" | "vector-length" | "vector?" | "last-pair"
             | "procedure?" | "boolean?" | "number?" | "symbol?" | "string?" | "char?" | "display" | "probe" => (1, false),
             "caar" | "cadr" | "cdar" | "cddr" | "caaar" | "caadr" | "cadar" | "caddr" | "cdaar" | "cdadr" | "cddar" | "cdddr" => (1, false),
-            "cons" | "eqv?" | "eq?" | "equal?" | "floor-quotient" | "floor-remainder" | "make-vector" | "vector-ref" | "map" | "for-each"
+            "cons" | "eqv?" | "eq?" | "equal?" | "floor-quotient" | "floor-remainder" | "make-vector" | "vector-ref"
             | "list-tail" | "list-ref" | "memq" | "memv" | "make-list" | "tick" => (2, false),
+            "map" | "for-each" => (2, true),
             "vector-set!" | "fold-left" | "fold-right" => (3, false),
             "newline" => (0, false),
             "-" | "/" | "min" | "max" | "apply" => (1, true),
@@ -836,10 +837,16 @@ impl Machine {
                 Ok(vec_to_list(items, a[a.len() - 1].clone()))
             }
             "map" | "for-each" => {
-                let items = proper_list(&a[1]).ok_or_else(|| RErr::OutOfClass("map/for-each on a non-list".into()))?;
+                // one or several lists; the shortest decides (r7rs 6.10)
+                let mut lists = vec![];
+                for l in &a[1..] {
+                    lists.push(proper_list(l).ok_or_else(|| RErr::OutOfClass("map/for-each on a non-list".into()))?);
+                }
+                let n = lists.iter().map(|l| l.len()).min().unwrap_or(0);
                 let mut out = vec![];
-                for it in items {
-                    out.push(self.apply(a[0].clone(), vec![it])?);
+                for i in 0..n {
+                    let args: Vec<RVal> = lists.iter().map(|l| l[i].clone()).collect();
+                    out.push(self.apply(a[0].clone(), args)?);
                 }
                 if p == "map" {
                     Ok(vec_to_list(out, RVal::Nil))
